@@ -540,6 +540,8 @@ package godi
 //@   ensures[C13] closed_meanwhile_is_refused: ncalls("scope.Close") == 1 ==> result0 == nil && result1 == ErrProviderDisposed && callarg("scope.Close", 0, 0) == callret("newScope", 0, 0) && ncalls("go:provider.CreateScope$1") == 0
 //@   at before call p.scopesMu.Unlock#2 : assert[C13] tracked: p.scopes != nil && (s in p.scopes)
 //@   ensures[C14,C13] a_scope_closed_during_its_creation_is_not_tracked: result1 == nil ==> ncalls("atomic.Load:disposed") == 2 && callret("atomic.Load:disposed", 1, 0) == 0
+//@   ensures[C14,C13] closed_during_creation_is_refused: ncalls("atomic.Load:disposed") == 2 && callret("atomic.Load:disposed", 1, 0) != 0 ==> result0 == nil && result1 == ErrScopeDisposed && ncalls("go:provider.CreateScope$1") == 0
+//@   at before call p.scopesMu.Unlock#3 : assert[C14] detached_again: p.scopes == nil || !(s in p.scopes)
 //
 //@ func provider.CreateScope$1
 //@   mode conc
@@ -562,6 +564,10 @@ package godi
 //@   ensures[C13] closed_meanwhile_is_refused: ncalls("scope.Close") == 1 ==> result0 == nil && result1 == ErrScopeDisposed && callarg("scope.Close", 0, 0) == callret("newScope", 0, 0) && ncalls("go:scope.CreateScope$1") == 0
 //@   at before call s.childrenMu.Unlock#2 : assert[C13] tracked_by_parent: s.children != nil && (child in s.children)
 //@   at before call s.rootProvider.scopesMu.Unlock#1 : assert[C13] tracked_by_provider: s.rootProvider.scopes != nil ==> (child in s.rootProvider.scopes)
+//@   ensures[C14,C13] a_scope_closed_during_its_creation_is_not_tracked: result1 == nil ==> ncalls("atomic.Load:disposed") == 2 && callret("atomic.Load:disposed", 1, 0) == 0
+//@   ensures[C14,C13] closed_during_creation_is_refused: ncalls("atomic.Load:disposed") == 2 && callret("atomic.Load:disposed", 1, 0) != 0 ==> result0 == nil && result1 == ErrScopeDisposed && ncalls("go:scope.CreateScope$1") == 0
+//@   at before call s.childrenMu.Unlock#3 : assert[C14] detached_from_parent_again: s.children == nil || !(child in s.children)
+//@   at before call s.rootProvider.scopesMu.Unlock#2 : assert[C14] detached_from_provider_again: s.rootProvider.scopes == nil || !(child in s.rootProvider.scopes)
 //
 //@ func scope.CreateScope$1
 //@   mode conc
